@@ -112,6 +112,10 @@ func NewConsumerGroup(parent, fanOutPath string, q FanOutQueue) (ConsumerGroup, 
 		if ackSeq < ackOfQueue {
 			ackSeq = ackOfQueue
 		}
+		if consumedSeq < ackSeq {
+			// a group that was stopped while the queue moved on: keep acknowledged <= consumed
+			consumedSeq = ackSeq
+		}
 	}
 	// persist metadata
 	metaPage.PutUint64(uint64(consumedSeq), consumerGroupConsumedSeqOffset)
